@@ -144,30 +144,44 @@ func c04Specs(tier string) []*h.SeqSpec {
 	push("PUT valid image as t ?digest=right sha512", b0, tagRef, "", "digest="+url.QueryEscape(h.Dig("sha512", b0.data)), "")
 	push("PUT valid image as t ?digest=wrong", b0, tagRef, "", "digest="+url.QueryEscape(f.Items["I2"].Dig), "?digest= is not the digest of the body")
 	push("PUT valid image as t ?digest=malformed", b0, tagRef, "", "digest=sha256:zz", "malformed ?digest=")
-	depth := 4
+	depth := 3
 	if tier == "thorough" {
-		depth = 5
+		depth = 4
 	}
 	var specs []*h.SeqSpec
 	for _, store := range []string{"mem", "dir"} {
-		specs = append(specs, &h.SeqSpec{
-			Name: "c04-" + store,
-			Conf: &h.Conf{Name: store, Store: store},
-			Init: func(w *h.World) {
-				m := NewMRegFix(f)
-				w.M = m
-				// l2 present so that I2 can exist; I2 is pushed to give the repository a populated start
-				r := m.Repo(repo)
-				for _, b := range []string{"l2"} {
-					mustStatus(w.PushBlob(repo, f.Items[b].Data, f.Items[b].Dig), 201)
-					r.PushBlob(b)
-				}
-			},
-			Ops:      ops,
-			Model:    func(w *h.World) string { return regM(w).String() },
-			NonTriv:  func(w *h.World) bool { return len(regM(w).Repo(repo).Mans) > 0 },
-			MaxDepth: depth,
-		})
+		for _, start := range []string{"empty", "populated", "referrers"} {
+			start := start
+			specs = append(specs, &h.SeqSpec{
+				Name: "c04-" + store + "-" + start,
+				Conf: &h.Conf{Name: store, Store: store},
+				Init: func(w *h.World) {
+					m := NewMRegFix(f)
+					w.M = m
+					r := m.Repo(repo)
+					blobs := []string{"l2"}
+					if start != "empty" {
+						blobs = []string{"l2", "c", "l1", "e"}
+					}
+					for _, b := range blobs {
+						mustStatus(w.PushBlob(repo, f.Items[b].Data, f.Items[b].Dig), 201)
+						r.PushBlob(b)
+					}
+					if start != "empty" {
+						mustStatus(w.PutManifest(repo, "u", mtImg, f.Items["I1"].Data), 201)
+						r.PushManifest(f.Items["I1"], "u")
+					}
+					if start == "referrers" {
+						mustStatus(w.PutManifest(repo, f.Items["A1"].Dig, mtImg, f.Items["A1"].Data), 201)
+						r.PushManifest(f.Items["A1"], "")
+					}
+				},
+				Ops:      ops,
+				Model:    func(w *h.World) string { return regM(w).String() },
+				NonTriv:  func(w *h.World) bool { return len(regM(w).Repo(repo).Mans) > 0 },
+				MaxDepth: depth,
+			})
+		}
 	}
 	return specs
 }
